@@ -281,7 +281,21 @@ class Interp:
                 pairs += self.dict_pairs(d)
             else:
                 pairs.append((self.eval(k, fr), self.eval(v, fr)))
-        return LDict(pairs)
+        return LDict(self.merge_pairs(pairs))
+
+    def merge_pairs(self, pairs):
+        """Python's dict construction: a later item with an equal key replaces the value of the earlier one (the earlier key
+        and its position are kept).  (Found missing by seeded change C13-D: an inverted table with a repeated value.)"""
+        out = []
+        for k, v in pairs:
+            for i, (k0, _) in enumerate(out):
+                r = self.py_eq(k0, k)
+                if r is True or (r is not False and self.path.branch(r)):
+                    out[i] = (k0, v)
+                    break
+            else:
+                out.append((k, v))
+        return out
 
     def e_Lambda(self, node, fr):
         return Closure(node, fr.env, fr.fn_globals)
@@ -824,7 +838,7 @@ class Interp:
         if sym is not None:
             return sym
         if kind == "dict":
-            return LDict(results)
+            return LDict(self.merge_pairs(results))
         return LList(results)
 
     def _comp_rec(self, node, gi, fr, kind, results):
@@ -845,6 +859,16 @@ class Interp:
             if gi == 0 and len(gens) == 1 and kind == "list":
                 from .comp import build_comprehension
                 return build_comprehension(self, node, g, it, fr)
+            if (gi == 0 and len(gens) == 1 and kind == "dict" and isinstance(it, SymZip) and len(it.seqs) == 2 and not g.ifs
+                    and isinstance(g.target, ast.Tuple) and len(g.target.elts) == 2
+                    and all(isinstance(e, ast.Name) for e in g.target.elts) and isinstance(node.key, ast.Name)
+                    and isinstance(node.value, ast.Name) and node.key.id == g.target.elts[0].id and node.value.id == g.target.elts[1].id):
+                # {k: v for k, v in zip(ks, vs)}: the mapping with those keys and values (keys of a mapping are distinct;
+                # for sequences of different lengths zip stops at the shorter one)
+                ks, vs = it.seqs
+                n = z3.If(z3.Length(ks) < z3.Length(vs), z3.Length(ks), z3.Length(vs))
+                self.guard([("TypeError", z3.Not(V.AllHashableSeq(ks)) if hasattr(V, "AllHashableSeq") else z3.BoolVal(False))])
+                return Z(V.VDict(z3.SubSeq(ks, 0, n), z3.SubSeq(vs, 0, n)))
             raise Unsupported(f"comprehension over a symbolic sequence (nested / dict) at line {node.lineno}")
         for x in items:
             self.assign_target(g.target, x, fr)
